@@ -460,6 +460,108 @@ static std::string run_c04(const CaseSpec &cs0, const std::vector<std::string> &
   return "";
 }
 
+// C04 at transform level: AttributeQuantizationTransform alone (no entropy coder), every q in 1..30, automatic and
+// explicit parameters.
+struct QuantSpec {
+  int32_t q = 8;
+  int32_t ncomp = 3;
+  uint8_t explicit_box = 0;
+  std::vector<float> origin;
+  float range = 1.f;
+  std::vector<float> v;
+  template <class A>
+  void io(A &a) {
+    a(q); a(ncomp); a(explicit_box); a(origin); a(range); a(v);
+  }
+};
+static std::string run_c04_transform(const QuantSpec &qs) {
+  const uint32_t n = static_cast<uint32_t>(qs.v.size() / qs.ncomp);
+  if (n == 0) return "";
+  GeometryAttribute ga;
+  ga.Init(GeometryAttribute::GENERIC, nullptr, static_cast<uint8_t>(qs.ncomp), draco::DT_FLOAT32, false, 4 * qs.ncomp, 0);
+  draco::PointAttribute att(ga);
+  att.Reset(n);
+  att.SetIdentityMapping();
+  for (uint32_t i = 0; i < n; ++i) att.SetAttributeValue(AttributeValueIndex(i), &qs.v[static_cast<size_t>(i) * qs.ncomp]);
+  draco::AttributeQuantizationTransform t;
+  AttSpec a;
+  a.ncomp = qs.ncomp;
+  a.nvalues = n;
+  a.data.assign(reinterpret_cast<const uint8_t *>(qs.v.data()), reinterpret_cast<const uint8_t *>(qs.v.data()) + qs.v.size() * 4);
+  RefQuant want;
+  if (qs.explicit_box) {
+    if (!t.SetParameters(qs.q, qs.origin.data(), qs.ncomp, qs.range)) return "SetParameters refused valid parameters";
+    want.bits = qs.q;
+    want.mins = qs.origin;
+    want.range = qs.range;
+    want.valid = true;
+  } else {
+    if (!t.ComputeParameters(att, qs.q)) return "ComputeParameters failed on finite values";
+    want = ref_auto_params(a, qs.q);
+    if (!want.valid) return "reference parameters invalid";
+    if (memcmp(&want.range, &(const float &)t.range(), 4) != 0) return "computed range " + fbits(t.range()) + " != reference " + fbits(want.range);
+    for (int c = 0; c < qs.ncomp; ++c) {
+      const float m = t.min_value(c);
+      if (memcmp(&want.mins[c], &m, 4) != 0) return "computed minimum differs from the reference";
+    }
+  }
+  std::unique_ptr<draco::PointAttribute> port = t.InitTransformedAttribute(att, n);
+  if (!t.TransformAttribute(att, {}, port.get())) return "TransformAttribute failed";
+  draco::PointAttribute target(ga);
+  target.Reset(n);
+  if (!t.InverseTransformAttribute(*port, &target)) return "InverseTransformAttribute failed";
+  const double R = want.range;
+  const double step = R / (std::ldexp(1.0, qs.q) - 1.0);
+  for (uint32_t i = 0; i < n; ++i) {
+    float out[8];
+    target.GetValue(AttributeValueIndex(i), out);
+    int32_t k[8];
+    port->GetValue(AttributeValueIndex(i), k);
+    for (int c = 0; c < qs.ncomp; ++c) {
+      const double x = qs.v[static_cast<size_t>(i) * qs.ncomp + c], y = out[c], mn = want.mins[c];
+      const double A = c04_allow(x, mn, R);
+      if (!(std::fabs(y - x) <= step / 2 + A)) {
+        return "transform level: decoded " + fbits(out[c]) + " for original " + fbits(static_cast<float>(x)) + ", error " + std::to_string(std::fabs(y - x)) + " > half step " +
+               std::to_string(step / 2) + " + allowance " + std::to_string(A) + " (bits " + std::to_string(qs.q) + ", range " + fbits(want.range) + ")";
+      }
+      if (!(y >= mn - A && y <= mn + R + A)) return "transform level: decoded value leaves the quantization box";
+      const int32_t kr = want.q(static_cast<float>(x), c);
+      if (kr != k[c]) return "transform level: quantized integer " + std::to_string(k[c]) + " != reference " + std::to_string(kr);
+    }
+  }
+  return "";
+}
+static QuantSpec gen_quant_spec() {
+  QuantSpec qs;
+  qs.q = P(40) ? R(25, 30) : R(1, 24);
+  qs.ncomp = W({20, 20, 40, 20}) + 1;
+  const int n = R(1, 40);
+  const double offs[] = {0, 0, 1e3, 1e7, -5e4, 0.5};
+  const double offset = offs[R(0, 5)];
+  const double scale = std::pow(10.0, R(-6, 9)) * (1 + R(0, 8));
+  const int constc = P(25) ? R(0, qs.ncomp - 1) : -1;
+  for (int i = 0; i < n; ++i)
+    for (int c = 0; c < qs.ncomp; ++c) {
+      double u = P(30) ? R(0, 16) / 16.0 : R(0, 1 << 20) / static_cast<double>(1 << 20);
+      if (P(10)) u = (R(0, 64) + 0.5) / 64.0;  // near ties of coarse grids
+      qs.v.push_back(static_cast<float>(c == constc ? offset : offset + scale * u));
+    }
+  if (P(30)) {
+    AttSpec a;
+    a.ncomp = qs.ncomp;
+    a.nvalues = static_cast<uint32_t>(n);
+    a.dtype = draco::DT_FLOAT32;
+    a.data.assign(reinterpret_cast<const uint8_t *>(qs.v.data()), reinterpret_cast<const uint8_t *>(qs.v.data()) + qs.v.size() * 4);
+    AttOpt o;
+    if (gen_explicit_box(a, &o)) {
+      qs.explicit_box = 1;
+      qs.origin = o.origin;
+      qs.range = o.range;
+    }
+  }
+  return qs;
+}
+
 // C12: geometry B shares coordinates with A (same explicit box); decoded values of shared coordinates must be
 // bit-identical and lie on the grid.
 struct C12Spec {
@@ -1024,6 +1126,23 @@ int main(int argc, char **argv) {
       set_case(mode, to_tokens(sp), sp.a.g.npoints <= 100 ? "{\"A\":" + describe_case(sp.a) + ",\"B\":" + describe_case(sp.b) + "}" : std::string());
       return guarded([&] { return run_c12(sp); });
     }
+    if (mode == "c04" && P(30)) {
+      QuantSpec qs = gen_quant_spec();
+      set_case("c04t", to_tokens(qs), J().num("q", qs.q).num("components", qs.ncomp).num("explicit_box", qs.explicit_box).num("values", static_cast<double>(qs.v.size() / qs.ncomp)).done());
+      std::string e = guarded([&] { return run_c04_transform(qs); });
+      count("transform_level_cases");
+      count(qs.q <= 8 ? "transform_q_1_8" : qs.q <= 24 ? "transform_q_9_24" : "transform_q_25_30");
+      if (qs.explicit_box) count("transform_explicit_box");
+      if (e.empty() && qs.v.size() / qs.ncomp >= 2) {
+        nontrivial(hash_tokens(to_tokens(qs)));
+        if (stats().samples.size() < 1) {
+          std::string vv = "[";
+          for (size_t i = 0; i < qs.v.size() && i < 9; ++i) vv += (i ? "," : "") + std::to_string(qs.v[i]);
+          sample(J().str("level", "AttributeQuantizationTransform").num("q", qs.q).num("components", qs.ncomp).raw("first_values", vv + "]").done(), 1);
+        }
+      }
+      return e;
+    }
     if (mode == "c07" && P(35)) {
       // transform level: every q in 2..30 without the entropy coder
       NormSpec ns;
@@ -1065,6 +1184,11 @@ int main(int argc, char **argv) {
       if (!from_tokens(t, &sp)) return std::string("bad replay tokens");
       return guarded([&] { return run_c12(sp); });
     }
+    if (mode == "c04t") {
+      QuantSpec qs;
+      if (!from_tokens(t, &qs)) return std::string("bad replay tokens");
+      return guarded([&] { return run_c04_transform(qs); });
+    }
     if (mode == "c07t") {
       NormSpec ns;
       if (!from_tokens(t, &ns)) return std::string("bad replay tokens");
@@ -1096,8 +1220,9 @@ int main(int argc, char **argv) {
   } else if (mode == "c04") {
     stats().rule =
         "same generator, every case with >= 1 quantized float32 attribute (1..8 components, auto or explicit box, all "
-        "methods) plus a uint32 tag attribute for the input<->decoded correspondence; non-trivial = a quantized "
-        "attribute with >= 2 distinct decoded values; distinct by spec hash";
+        "methods, q up to 24/26) plus a uint32 tag attribute for the input<->decoded correspondence, and (30 % of the cases) "
+        "AttributeQuantizationTransform alone for q = 1..30 with automatic and explicit parameters; non-trivial = a "
+        "quantized attribute with >= 2 distinct decoded values; distinct by spec hash";
   } else if (mode == "c12") {
     stats().rule =
         "pairs (A,B): A from the shared generator with one explicitly quantized float attribute, B a separately "
